@@ -97,3 +97,27 @@ Theorem C13_whole_derive_field : forall be order order_tp x sh fs1 f fs2 pre l t
     derive_model be order order_tp x = derive_model be order order_tp (with_data x (RStruct sh (fs1 ++ f' :: fs2))).
 Proof. exact respelling_whole_derive_field. Qed.
 Print Assumptions C13_whole_derive_field.
+
+(* ... and of any variant of an enum, and of any payload field of a variant *)
+Theorem C13_whole_derive_variant : forall be order order_tp x vs1 v vs2 pre l trailing post attrs bark,
+    ri_data x = REnum (vs1 ++ v :: vs2) -> rv_attrs v = pre ++ o2o_attr (group_toks l trailing) :: post ->
+    Forall (fun x => ordinary be (fst x) /\ mb_stable (fst x) = true) l ->
+    get_data_type_attrs be (ri_attrs x) = Ok (attrs, bark) ->
+    raw_has_none x = false ->
+    let v' := {| rv_ident := rv_ident v; rv_shape := rv_shape v; rv_attrs := pre ++ bares l ++ post; rv_fields := rv_fields v |} in
+    raw_has_none (with_data x (REnum (vs1 ++ v' :: vs2))) = false ->
+    derive_model be order order_tp x = derive_model be order order_tp (with_data x (REnum (vs1 ++ v' :: vs2))).
+Proof. exact respelling_whole_derive_variant. Qed.
+Print Assumptions C13_whole_derive_variant.
+
+Theorem C13_whole_derive_payload_field : forall be order order_tp x vs1 v vs2 fs1 f fs2 pre l trailing post attrs bark,
+    ri_data x = REnum (vs1 ++ v :: vs2) -> rv_fields v = fs1 ++ f :: fs2 -> rf_attrs f = pre ++ o2o_attr (group_toks l trailing) :: post ->
+    Forall (fun x => ordinary be (fst x) /\ mb_stable (fst x) = true) l ->
+    get_data_type_attrs be (ri_attrs x) = Ok (attrs, bark) ->
+    raw_has_none x = false ->
+    let f' := {| rf_member := rf_member f; rf_typath := rf_typath f; rf_ty := rf_ty f; rf_attrs := pre ++ bares l ++ post |} in
+    let v' := {| rv_ident := rv_ident v; rv_shape := rv_shape v; rv_attrs := rv_attrs v; rv_fields := fs1 ++ f' :: fs2 |} in
+    raw_has_none (with_data x (REnum (vs1 ++ v' :: vs2))) = false ->
+    derive_model be order order_tp x = derive_model be order order_tp (with_data x (REnum (vs1 ++ v' :: vs2))).
+Proof. exact respelling_whole_derive_payload_field. Qed.
+Print Assumptions C13_whole_derive_payload_field.
